@@ -129,6 +129,15 @@ func errClass(msg string) string {
 	return "other"
 }
 
+// normKey is the key as the database reports it back: "<database>:<record key>" (a key without colon
+// names the database with an empty record key).
+func normKey(key string) string {
+	if i := strings.IndexByte(key, ':'); i >= 0 {
+		return key
+	}
+	return key + ":"
+}
+
 func hx(b []byte) string {
 	if len(b) == 0 {
 		return "-"
